@@ -1,0 +1,11 @@
+//go:build verif
+
+package iscp
+
+// VerifDownstreamQueued returns how many chunks and how many metadata items are waiting in the
+// stream's read queues (dataPointsCh, metadataCh). Verification harness only (build tag verif):
+// it lets a driver wait until an item the broker sent has been queued before it issues the next
+// operation.
+func VerifDownstreamQueued(d *Downstream) (chunks int, metadata int) {
+	return len(d.dataPointsCh), len(d.metadataCh)
+}
